@@ -87,4 +87,7 @@ class PatternMatcher:
         Returns:
             True if path matches any pattern
         """
-        return any(self._get_compiled(pattern).search(path_str) for pattern in allow_patterns)
+        return any(
+            self._get_compiled(item if isinstance(item, str) else item["pattern"]).search(path_str)
+            for item in allow_patterns
+        )
